@@ -28,8 +28,9 @@ pub fn size_strategy() -> impl Strategy<Value = u32> {
     ]
 }
 
-/// sample sizes around and beyond the 64 KiB mark (readers and writers that buffer in 64 KiB steps)
-pub const BIG_SIZES: [u32; 7] = [65_535, 65_536, 65_537, 70_001, 131_072, 131_073, 200_003];
+/// sample sizes around and beyond the 64 KiB mark and at 1 MiB (readers and writers that buffer
+/// in steps or treat large samples specially)
+pub const BIG_SIZES: [u32; 9] = [65_535, 65_536, 65_537, 70_001, 131_072, 131_073, 200_003, 1 << 20, (1 << 20) + 1];
 
 /// With probability `weight`, one sample of the movie (table or fragment run) gets a size from
 /// `BIG_SIZES`; everything else about the movie is unchanged.
